@@ -467,6 +467,18 @@ fn classify_value_body(
             return None;
         }
     }
+    // the private tuple constructor `HipStr(HipByt::…(v))`: bytes wrapped WITHOUT validation
+    for (ctor, need_long) in [("from", false), ("borrowed", true)] {
+        let pat = format!("Ok(__IK(__IR::{ctor}(__Iv)))");
+        if let Some(b) = matches(&pat, toks) {
+            if b.id("v") == param && b.id("K") == kind_ident && b.id("R") == "HipByt" && kind == Kind::Str
+                && ty == Ty::Bytes && (!need_long || own == Own::Long)
+            {
+                return Some(if need_long { Body::Borrow } else { from_body(own) });
+            }
+            return None;
+        }
+    }
     if matches("Err __Targs", toks).is_some() {
         return Some(Body::Error);
     }
@@ -475,29 +487,32 @@ fn classify_value_body(
 
 /// Classifies the body of `visit_seq`.
 fn classify_seq_body(toks: &[Tok], kind_ident: &str, param: &str) -> Option<Body> {
-    let tail = "let mut __Ibuf = Vec::with_capacity(__Ilen); \
-                while let Some(__Ib) = __Iseq.next_element()? { __Ibuf.push(__Ib); } \
-                Ok(__IK::from(__Ibuf))";
-    let capped = [
-        "let __Ilen = core::cmp::min(__Iseq.size_hint().unwrap_or(0), __Ncap);",
-        "let __Ilen = __Iseq.size_hint().unwrap_or(0).min(__Ncap);",
-        "let __Ilen = cmp::min(__Iseq.size_hint().unwrap_or(0), __Ncap);",
+    let loop_ = "while let Some(__Ib) = __Iseq.next_element()? { __Ibuf.push(__Ib); }";
+    // the value is built by `K::from(vec)` or by the raw tuple constructor `K(HipByt::from(vec))`
+    // (for a string type the latter — like the former — performs no validation)
+    let ctors = ["Ok(__IK::from(__Ibuf))", "Ok(__IK(__IR::from(__Ibuf)))"];
+    let heads: [(&str, u8); 5] = [
+        ("let __Ilen = core::cmp::min(__Iseq.size_hint().unwrap_or(0), __Ncap); let mut __Ibuf = Vec::with_capacity(__Ilen);", 1),
+        ("let __Ilen = __Iseq.size_hint().unwrap_or(0).min(__Ncap); let mut __Ibuf = Vec::with_capacity(__Ilen);", 1),
+        ("let __Ilen = cmp::min(__Iseq.size_hint().unwrap_or(0), __Ncap); let mut __Ibuf = Vec::with_capacity(__Ilen);", 1),
+        ("let __Ilen = __Iseq.size_hint().unwrap_or(0); let mut __Ibuf = Vec::with_capacity(__Ilen);", 0),
+        ("let mut __Ibuf = Vec::new();", 2),
     ];
-    let ok = |b: &Binds| b.id("seq") == param && (b.id("K") == kind_ident || b.id("K") == "Self");
-    for head in capped {
-        if let Some(b) = matches(&format!("{head} {tail}"), toks) {
-            return if ok(&b) { Some(Body::Seq(Some(b.num("cap")))) } else { None };
+    for ctor in ctors {
+        for (head, capped) in heads {
+            if let Some(b) = matches(&format!("{head} {loop_} {ctor}"), toks) {
+                let k_ok = b.id("K") == kind_ident || (b.id("K") == "Self" && b.id("R").is_empty());
+                let r_ok = b.id("R").is_empty() || b.id("R") == "HipByt";
+                if b.id("seq") != param || !k_ok || !r_ok {
+                    return None;
+                }
+                return Some(match capped {
+                    1 => Body::Seq(Some(b.num("cap"))),
+                    0 => Body::Seq(None),
+                    _ => Body::Seq(Some(0)),
+                });
+            }
         }
-    }
-    if let Some(b) = matches(&format!("let __Ilen = __Iseq.size_hint().unwrap_or(0); {tail}"), toks) {
-        return if ok(&b) { Some(Body::Seq(None)) } else { None };
-    }
-    // no reservation at all
-    let unreserved = "let mut __Ibuf = Vec::new(); \
-                      while let Some(__Ib) = __Iseq.next_element()? { __Ibuf.push(__Ib); } \
-                      Ok(__IK::from(__Ibuf))";
-    if let Some(b) = matches(unreserved, toks) {
-        return if ok(&b) { Some(Body::Seq(Some(0))) } else { None };
     }
     None
 }
@@ -514,6 +529,52 @@ fn method_lean(name: &str) -> Option<&'static str> {
         "visit_char" => ".char",
         _ => return None,
     })
+}
+
+/// A visitor whose `Value` is not a Hip type (`type Value = ()` of an in-place visitor): only the
+/// names of its `visit_*` methods are recorded, the model does not interpret it.
+struct AuxVisitor {
+    name: String,
+    value: String,
+    methods: Vec<String>,
+    loc: String,
+}
+
+enum ParsedVisitor {
+    Hip(VisitorRow),
+    Aux(AuxVisitor),
+}
+
+fn parse_any_visitor(file: &SrcFile, imp: &syn::ItemImpl, trait_path: &syn::Path) -> R<ParsedVisitor> {
+    let name = type_last_ident(&imp.self_ty).ok_or_else(|| bad(file, imp.self_ty.span(), "visitor self type"))?;
+    for it in &imp.items {
+        if let syn::ImplItem::Type(t) = it {
+            if t.ident == "Value" {
+                let hip = match &t.ty {
+                    syn::Type::Path(p) => p.path.segments.last().and_then(|s| Kind::from_ident(&s.ident.to_string())).is_some(),
+                    _ => false,
+                };
+                if !hip {
+                    let mut methods = vec![];
+                    for m in &imp.items {
+                        if let syn::ImplItem::Fn(f) = m {
+                            let n = f.sig.ident.to_string();
+                            if n != "expecting" {
+                                methods.push(n);
+                            }
+                        }
+                    }
+                    return Ok(ParsedVisitor::Aux(AuxVisitor {
+                        name,
+                        value: t.ty.to_token_stream().to_string().replace(' ', ""),
+                        methods,
+                        loc: loc(file, imp.impl_token.span()),
+                    }));
+                }
+            }
+        }
+    }
+    parse_visitor(file, imp, trait_path).map(ParsedVisitor::Hip)
 }
 
 fn parse_visitor(file: &SrcFile, imp: &syn::ItemImpl, trait_path: &syn::Path) -> R<VisitorRow> {
@@ -623,6 +684,7 @@ struct DeRow {
     kind: Kind,
     borrowing: bool,
     target: DeTarget,
+    in_place: bool,
     loc: String,
     file: String,
 }
@@ -699,6 +761,74 @@ fn parse_ser_body(file: &SrcFile, block: &syn::Block, param: &str, kind: Kind) -
         }
     }
     Err(bad(file, block.span(), "serialize body"))
+}
+
+/// Every use of the `reader`/`writer` parameter in a borsh impl body, in source order, as Lean
+/// `IoCall`s, and whether the body contains an `unsafe` block.
+struct IoScan<'a> {
+    param: &'a str,
+    calls: Vec<String>,
+    uses_unsafe: bool,
+}
+
+impl IoScan<'_> {
+    fn is_param(&self, e: &syn::Expr) -> bool {
+        match e {
+            syn::Expr::Path(p) => p.path.is_ident(self.param),
+            syn::Expr::Reference(r) => self.is_param(&r.expr),
+            syn::Expr::Unary(u) => self.is_param(&u.expr),
+            syn::Expr::Paren(p) => self.is_param(&p.expr),
+            _ => false,
+        }
+    }
+}
+
+fn compact(t: &impl ToTokens) -> String {
+    t.to_token_stream().to_string().replace(' ', "")
+}
+
+impl<'ast> syn::visit::Visit<'ast> for IoScan<'_> {
+    fn visit_expr_unsafe(&mut self, e: &'ast syn::ExprUnsafe) {
+        self.uses_unsafe = true;
+        syn::visit::visit_expr_unsafe(self, e);
+    }
+    fn visit_expr_method_call(&mut self, m: &'ast syn::ExprMethodCall) {
+        let name = m.method.to_string();
+        if self.is_param(&m.receiver) {
+            self.calls.push(match name.as_str() {
+                "read_exact" => ".readExact".to_string(),
+                "read" => ".read".to_string(),
+                "write_all" => ".writeAll".to_string(),
+                "write" => ".write".to_string(),
+                other => format!(".other \"{other}\""),
+            });
+        } else if m.args.iter().any(|a| self.is_param(a)) {
+            if name == "serialize" {
+                self.calls.push(format!(".delegate \"{}.serialize\"", compact(&m.receiver)));
+            } else {
+                self.calls.push(format!(".other \"{name}\""));
+            }
+        }
+        syn::visit::visit_expr_method_call(self, m);
+    }
+    fn visit_expr_call(&mut self, c: &'ast syn::ExprCall) {
+        if c.args.iter().any(|a| self.is_param(a)) {
+            let f = compact(&c.func);
+            if f.ends_with("::deserialize_reader") {
+                self.calls.push(format!(".delegate \"{f}\""));
+            } else {
+                self.calls.push(format!(".other \"{f}\""));
+            }
+        }
+        syn::visit::visit_expr_call(self, c);
+    }
+}
+
+fn io_scan(block: &syn::Block, param: &str) -> (Vec<String>, bool) {
+    use syn::visit::Visit;
+    let mut sc = IoScan { param, calls: vec![], uses_unsafe: false };
+    sc.visit_block(block);
+    (sc.calls, sc.uses_unsafe)
 }
 
 fn prefix_bytes(ty: &str) -> Option<u64> {
@@ -933,13 +1063,22 @@ fn parse_bstr_impl(file: &SrcFile, imp: &syn::ItemImpl, trait_path: &syn::Path, 
 // Driver
 // ---------------------------------------------------------------------------------------------
 
+struct BorshRow {
+    kind: Kind,
+    shape: String,
+    io: Vec<String>,
+    uses_unsafe: bool,
+    loc: String,
+}
+
 #[derive(Default)]
 struct Tables {
     visitors: Vec<VisitorRow>,
     de: Vec<DeRow>,
     ser: Vec<(Kind, &'static str, String)>,
-    borsh_de: Vec<(Kind, String, String)>,
-    borsh_ser: Vec<(Kind, &'static str, String)>,
+    borsh_de: Vec<BorshRow>,
+    borsh_ser: Vec<BorshRow>,
+    aux: Vec<AuxVisitor>,
     bstr: Vec<BstrRow>,
 }
 
@@ -976,13 +1115,27 @@ fn scan_items(file: &SrcFile, items: &[syn::Item], t: &mut Tables) -> R<()> {
                 };
                 let tname = trait_path.segments.last().unwrap().ident.to_string();
                 match tname.as_str() {
-                    "Visitor" => t.visitors.push(parse_visitor(file, imp, trait_path)?),
+                    "Visitor" => match parse_any_visitor(file, imp, trait_path)? {
+                        ParsedVisitor::Hip(v) => t.visitors.push(v),
+                        ParsedVisitor::Aux(a) => t.aux.push(a),
+                    },
                     "Deserialize" => {
                         let (kind, _) = hip_self(imp).ok_or_else(|| bad(file, imp.span(), "Deserialize for a non-Hip type"))?;
-                        let f = single_fn(file, imp, "deserialize")?;
+                        // `deserialize` (required, modelled) and optionally `deserialize_in_place`
+                        // (recorded as an override; its body is not modelled)
+                        let mut func = None;
+                        let mut in_place = false;
+                        for it in &imp.items {
+                            match it {
+                                syn::ImplItem::Fn(f) if f.sig.ident == "deserialize" && func.is_none() => func = Some(f),
+                                syn::ImplItem::Fn(f) if f.sig.ident == "deserialize_in_place" && !in_place => in_place = true,
+                                other => return Err(bad(file, other.span(), "item in impl Deserialize")),
+                            }
+                        }
+                        let f = func.ok_or_else(|| bad(file, imp.span(), "impl without `fn deserialize`"))?;
                         let (p, _) = nth_param(&f.sig, 0).ok_or_else(|| bad(file, f.sig.span(), "deserialize parameter"))?;
                         let target = parse_de_body(file, &f.block, &p, kind, false)?;
-                        t.de.push(DeRow { kind, borrowing: false, target, loc: loc(file, imp.impl_token.span()), file: file.rel.clone() });
+                        t.de.push(DeRow { kind, borrowing: false, target, in_place, loc: loc(file, imp.impl_token.span()), file: file.rel.clone() });
                     }
                     "Serialize" => {
                         let (kind, _) = hip_self(imp).ok_or_else(|| bad(file, imp.span(), "Serialize for a non-Hip type"))?;
@@ -995,15 +1148,27 @@ fn scan_items(file: &SrcFile, items: &[syn::Item], t: &mut Tables) -> R<()> {
                         let (kind, _) = hip_self(imp).ok_or_else(|| bad(file, imp.span(), "BorshDeserialize for a non-Hip type"))?;
                         let f = single_fn(file, imp, "deserialize_reader")?;
                         let (p, _) = nth_param(&f.sig, 0).ok_or_else(|| bad(file, f.sig.span(), "reader parameter"))?;
-                        let shape = parse_borsh_de_body(file, &f.block, &p, kind)?;
-                        t.borsh_de.push((kind, shape, loc(file, imp.impl_token.span())));
+                        let (io, uses_unsafe) = io_scan(&f.block, &p);
+                        // a body matching no template is still a row (shape `.other`, which the
+                        // row predicate rejects) as long as the uses of the reader could be listed
+                        let shape = match parse_borsh_de_body(file, &f.block, &p, kind) {
+                            Ok(s) => s,
+                            Err(_) if !io.is_empty() => ".other".to_string(),
+                            Err(e) => return Err(e),
+                        };
+                        t.borsh_de.push(BorshRow { kind, shape, io, uses_unsafe, loc: loc(file, imp.impl_token.span()) });
                     }
                     "BorshSerialize" => {
                         let (kind, _) = hip_self(imp).ok_or_else(|| bad(file, imp.span(), "BorshSerialize for a non-Hip type"))?;
                         let f = single_fn(file, imp, "serialize")?;
                         let (p, _) = nth_param(&f.sig, 0).ok_or_else(|| bad(file, f.sig.span(), "writer parameter"))?;
-                        let shape = parse_borsh_ser_body(file, &f.block, &p, kind)?;
-                        t.borsh_ser.push((kind, shape, loc(file, imp.impl_token.span())));
+                        let (io, uses_unsafe) = io_scan(&f.block, &p);
+                        let shape = match parse_borsh_ser_body(file, &f.block, &p, kind) {
+                            Ok(s) => s.to_string(),
+                            Err(_) if !io.is_empty() => ".other".to_string(),
+                            Err(e) => return Err(e),
+                        };
+                        t.borsh_ser.push(BorshRow { kind, shape, io, uses_unsafe, loc: loc(file, imp.impl_token.span()) });
                     }
                     _ if module == Some("bstr") => parse_bstr_impl(file, imp, trait_path, &mut t.bstr)?,
                     _ if module.is_some() => {
@@ -1037,7 +1202,7 @@ fn scan_items(file: &SrcFile, items: &[syn::Item], t: &mut Tables) -> R<()> {
                         .ok_or_else(|| bad(file, f.sig.span(), "borrow_deserialize return type"))?;
                         let (p, _) = nth_param(&f.sig, 0).ok_or_else(|| bad(file, f.sig.span(), "borrow_deserialize parameter"))?;
                         let target = parse_de_body(file, &f.block, &p, kind, true)?;
-                        t.de.push(DeRow { kind, borrowing: true, target, loc: loc(file, f.sig.fn_token.span()), file: file.rel.clone() });
+                        t.de.push(DeRow { kind, borrowing: true, target, in_place: false, loc: loc(file, f.sig.fn_token.span()), file: file.rel.clone() });
                     }
                     Some("borsh") => return Err(bad(file, f.sig.span(), "free function in a borsh module")),
                     Some("bstr") => {
@@ -1155,11 +1320,20 @@ pub fn generate(repo: &Repo) -> Result<Vec<GenFile>, String> {
         };
         let sep = if i + 1 == t.de.len() { "" } else { "," };
         o.push_str(&format!(
-            "  ⟨{}, {}, {target}, \"{}\"⟩{sep}\n",
+            "  ⟨{}, {}, {target}, {}, \"{}\"⟩{sep}\n",
             d.kind.lean(),
             if d.borrowing { ".borrowing" } else { ".owned" },
+            d.in_place,
             d.loc
         ));
+    }
+    o.push_str("]\n\n");
+
+    o.push_str("def auxVisitors : List AuxVisitorRow := [\n");
+    for (i, a) in t.aux.iter().enumerate() {
+        let sep = if i + 1 == t.aux.len() { "" } else { "," };
+        let ms: Vec<String> = a.methods.iter().map(|m| format!("\"{m}\"")).collect();
+        o.push_str(&format!("  ⟨\"{}\", \"{}\", [{}], \"{}\"⟩{sep}\n", a.name, a.value, ms.join(", "), a.loc));
     }
     o.push_str("]\n\n");
 
@@ -1171,16 +1345,16 @@ pub fn generate(repo: &Repo) -> Result<Vec<GenFile>, String> {
     o.push_str("]\n\n");
 
     o.push_str("def borshDeRows : List BorshDeRow := [\n");
-    for (i, (k, s, l)) in t.borsh_de.iter().enumerate() {
+    for (i, r) in t.borsh_de.iter().enumerate() {
         let sep = if i + 1 == t.borsh_de.len() { "" } else { "," };
-        o.push_str(&format!("  ⟨{}, {s}, \"{l}\"⟩{sep}\n", k.lean()));
+        o.push_str(&format!("  ⟨{}, {}, [{}], {}, \"{}\"⟩{sep}\n", r.kind.lean(), r.shape, r.io.join(", "), r.uses_unsafe, r.loc));
     }
     o.push_str("]\n\n");
 
     o.push_str("def borshSerRows : List BorshSerRow := [\n");
-    for (i, (k, s, l)) in t.borsh_ser.iter().enumerate() {
+    for (i, r) in t.borsh_ser.iter().enumerate() {
         let sep = if i + 1 == t.borsh_ser.len() { "" } else { "," };
-        o.push_str(&format!("  ⟨{}, {s}, \"{l}\"⟩{sep}\n", k.lean()));
+        o.push_str(&format!("  ⟨{}, {}, [{}], {}, \"{}\"⟩{sep}\n", r.kind.lean(), r.shape, r.io.join(", "), r.uses_unsafe, r.loc));
     }
     o.push_str("]\n\n");
 
